@@ -218,6 +218,9 @@ class Executor:
                 if body is None:
                     raise ExecError(f"no MIR body for promoted constant {op[1]!r} of {frame.fn.name}")
                 return self.exec_fn(body, [])
+            named = self.fns.get("const::" + op[1].strip().split("::")[-1]) if re.fullmatch(r"[\w:]+", op[1].strip()) else None
+            if named is not None and not named.error:
+                return self.exec_fn(named, [])
             return self.const_val(op[1])
         v = self.read_place(frame, op[1])
         return self.copy_val(v)
@@ -601,6 +604,11 @@ class Executor:
                     if "otherwise" in targets:
                         choices.append((smt.and_(*[smt.not_(cc) for cc in conds]), targets["otherwise"]))
                 live = [(cc, bb) for cc, bb in choices if not (cc.is_const and not cc.val)]
+                if getattr(self, "prune", False) and len(live) > 1:
+                    # optional: drop branches the solver shows infeasible under the assumptions and the path condition
+                    live = [(cc, bb) for cc, bb in live if not self.valid(smt.not_(cc))]
+                    if len(live) == 1:
+                        live = [(smt.TRUE, live[0][1])]
                 taken = [x for x in live if x[0].is_const and x[0].val]
                 if taken:
                     p.block = taken[0][1]
